@@ -50,12 +50,23 @@ static int feed(struct upipe *p, const int *cut, int ncut)
 {
     int pos = 0, accepted = 0;
     for (int i = 0; i < ncut; i++) {
-        upipe_input(p, env_block_uref(&stream[pos], cut[i]), NULL);
+        /* a cut entry 100*a + b is ONE buffer of a + b octets made of two chained segments */
+        int size = cut[i] >= 100 ? cut[i] / 100 + cut[i] % 100 : cut[i];
+        struct uref *u;
+        if (cut[i] >= 100) {
+            u = env_block_uref(&stream[pos], cut[i] / 100);
+            struct uref *t = env_block_uref(&stream[pos + cut[i] / 100], cut[i] % 100);
+            struct ubuf *tail = uref_detach_ubuf(t);
+            uref_free(t);
+            VASSERT(ubase_check(uref_block_append(u, tail)), "harness: segmented buffer built");
+        } else
+            u = env_block_uref(&stream[pos], size);
+        upipe_input(p, u, NULL);
 #if PIPE == P_AGG
-        if (cut[i] > 0 && cut[i] <= MTU)    /* the aggregator documents that it drops empty / oversized units */
+        if (size > 0 && size <= MTU)        /* the aggregator documents that it drops empty / oversized units */
 #endif
-            accepted += cut[i];
-        pos += cut[i];
+            accepted += size;
+        pos += size;
     }
     VASSERT(pos == NB, "harness: cutting covers the stream");
     return accepted;
@@ -126,12 +137,13 @@ int main(void)
     {
         int pos = 0, o = 0;
         for (unsigned i = 0; i < sizeof(cut_a) / sizeof(cut_a[0]); i++) {
-            if (cut_a[i] > 0 && cut_a[i] <= MTU)
-                for (int j = 0; j < cut_a[i]; j++) {
+            int sz = cut_a[i] >= 100 ? cut_a[i] / 100 + cut_a[i] % 100 : cut_a[i];
+            if (sz > 0 && sz <= MTU)
+                for (int j = 0; j < sz; j++) {
                     VASSERT(o < np && out_p[o] == stream[pos + j], "aggregate outputs every accepted octet once, in order");
                     o++;
                 }
-            pos += cut_a[i];
+            pos += sz;
         }
         VASSERT(o == np && np == acc_p, "aggregate outputs nothing else");
         (void)nq; (void)acc_q; (void)sz_q; (void)out_q;
